@@ -13,7 +13,7 @@ pub fn def() -> CheckDef {
         bounds_quick: "lax half: lax diagrams with <=3 nodes, <=2 hyperedges, <=1 pending pair (<=6 node references; wirings enumerated, labels symbolic) x seven lax functor families (incl. images that carry pending unifications); strict core: diagrams W<=2, X<=1, S,T<=2, interfaces<=2 (whole box) x six functor families: identity (the crate's), doubling A->[A,A], erasing A->[], label-dependent lengths 0/1/2, composite image (two operations in sequence), spider-only image; preservation of ; (x) dagger id twist on pairs W<=1..2, X<=1 for identity and doubling",
         bounds_thorough: "W<=3, X<=2, S,T<=3",
         jobs,
-        budget_s: (170, 3000),
+        budget_s: (170, 1500),
     }
 }
 
@@ -171,7 +171,7 @@ fn oracle_preserve(_inp: &PV, out: &PV) -> T {
 pub fn jobs(tier: Tier, seed: u64) -> Vec<Job> {
     let per_job = Duration::from_secs(match tier {
         Tier::Quick => 60,
-        Tier::Thorough => 1200,
+        Tier::Thorough => 600,
     });
     let cfg = base_cfg(tier);
     let bx = match tier {
@@ -240,7 +240,7 @@ fn oracle_lax(inp: &PV, out: &PV) -> T {
     tm::and(vec![tm::bconst(r.quot.is_empty()), iso(&want, &plain_of_lax(r))])
 }
 pub fn lax_jobs(tier: Tier) -> Vec<Job> {
-    let per_job = Duration::from_secs(if tier == Tier::Quick { 90 } else { 1200 });
+    let per_job = Duration::from_secs(if tier == Tier::Quick { 90 } else { 600 });
     let cfg = base_cfg(tier);
     let mut out = vec![];
     for sh in super::c13::shapes_for(tier) {
